@@ -225,6 +225,10 @@ def check(ctx):
     ctx.rule("R3", "traffic-log path: STATV segments are decoded by GeckoStatusBlockProtocolHandler.handle and joined when next == 0")
     ctx.rule("R4", "shipped snapshots: each file yields a pack type and config/log versions that name three existing table modules, and a block of exactly the status-block size with bytes <= 0xff")
 
+    ctx.rule("R5", "simulator load: GeckoSimulator.set_snapshot imports geckolib.driver.packs.<packtype.lower()>, ...-cfg-<config_version>, ...-log-<log_version>, all read from the snapshot being loaded (symbolic string templates)")
+    from ..modlookup import lookup_obligations
+    ctx.floor("R5", "module lookups analysed", lookup_obligations(ctx, repo, "GeckoSimulator.set_snapshot", "R5"), 3)
+
     snap_init = repo.method("GeckoSnapshot", "__init__")
     funcs = None
     for n in ast.walk(snap_init.node):
